@@ -165,7 +165,7 @@ def gen_tokens(rng, cfg, size, allow_undef=True):
             elif k < 0.78:
                 toks.append({"t": "ascii", "s": rng.choice(["", "a", "ab", "q"])})
             elif k < 0.86:
-                toks.append({"t": "zero", "n": rng.randint(1, 6)})
+                toks.append({"t": "zero", "n": rng.choice([0, 1, 1, 2, 3, 4, 6])})
             elif k < 0.95:
                 toks.append({"t": "align", "a": rng.choice([2, 4, 8, 16])})
             elif len(labels) >= 2:
@@ -289,8 +289,22 @@ def flush(ctx, pending):
     pending.clear()
 
 
+# texts that once tripped the assembler (each runs first, on every configuration family that can render it)
+CORPUS = [
+    # a zero-sized fill behind a trailing label nothing reaches (fixed d0ba9e3)
+    [{"t": "ret"}, {"t": "label", "name": "T0"}, {"t": "zero", "n": 0}],
+    [{"t": "op", "kind": "nop"}, {"t": "zero", "n": 0}, {"t": "label", "name": "T0"}, {"t": "zero", "n": 0}, {"t": "op", "kind": "nop"}],
+    # an empty string directive (fixed 39c6e81)
+    [{"t": "op", "kind": "nop"}, {"t": "ascii", "s": ""}, {"t": "label", "name": "T0"}, {"t": "ret"}],
+]
+
+
 def run(ctx):
     pending = []
+    for toks in CORPUS:
+        for cfg in AE.CONFIGS:
+            ctx.count("corpus")
+            check_case(ctx, {"cfg": cfg, "tokens": json.loads(json.dumps(toks)), "allow_undef": True, "triv": False}, pending)
     for _ in range(ctx.budget(1200, 30000)):
         check_case(ctx, gen_case(ctx.rng), pending)
         if len(pending) >= 400:
